@@ -62,6 +62,19 @@ def execute(req):
         return {"ok": False, "harness": "error", "detail": traceback.format_exc()[-6000:]}
 
 
+_TICK = os.sysconf("SC_CLK_TCK") if hasattr(os, "sysconf") else 100
+
+
+def _cpu_seconds(pid):
+    """User + system time of the process and of its reaped children, in seconds."""
+    try:
+        with open(f"/proc/{pid}/stat") as f:
+            rest = f.read().rsplit(")", 1)[1].split()
+        return sum(int(x) for x in rest[11:15]) / _TICK
+    except Exception:
+        return 0.0
+
+
 def serve():
     _imports()
     sys.stdout.write(json.dumps({"ready": True, "hashseed": os.environ.get("PYTHONHASHSEED")}) + "\n")
@@ -98,11 +111,13 @@ def serve():
                 os._exit(0)
         os.close(w)
         chunks = []
-        deadline = time.monotonic() + timeout
+        # the bound is on the CPU time the segment has used (it does not depend on how busy the machine
+        # is); a segment that does not compute at all is stopped after six times that much wall time
+        deadline = time.monotonic() + 6 * timeout
         timed_out = False
         while True:
             left = deadline - time.monotonic()
-            if left <= 0:
+            if left <= 0 or _cpu_seconds(pid) > timeout:
                 timed_out = True
                 break
             rl, _, _ = select.select([r], [], [], min(left, 1.0))
@@ -125,7 +140,7 @@ def serve():
         except Exception:
             pass
         if timed_out:
-            out = {"ok": False, "harness": "timeout", "detail": f"segment exceeded {timeout}s"}
+            out = {"ok": False, "harness": "timeout", "detail": f"segment exceeded {timeout}s of CPU time (or {6 * timeout}s of wall time)"}
         else:
             raw = b"".join(chunks)
             try:
